@@ -171,7 +171,7 @@ def run():
     ck.cov['distinct_nontrivial'] = len(sizes) + ck.cov['exec_events'] + ck.cov['item_events']
     ck.cov['rule'] = 'seeded keys of length 0, 60, 200 and random; every generated program is one non-trivial case (about 450 instructions, each compared with the TLA+ generator); register inputs from carry-chain corner classes; items 0, the last ones, the 2^22 cache wrap and random ones'
     ck.sample({'key': ss[0]['key'], 'first_program_size': ss[0]['progs'][0]['size'], 'first_instructions': ss[0]['progs'][0]['ins'][:6]})
-    ck.sample([l for l in lines if l.startswith('{"e":"item"')][0][:400])
+    ck.sample(([l for l in lines if l.startswith('{"e":"item"')] or [''])[0][:400])
     ck.assumptions += ['"for all keys" is sampled; rare generator paths are reached through coverage-directed scripted streams (see generator_paths_taken); paths never observed in any stream: aborted decode buffer (needs 256 consecutive throw-aways), unmappable macro-op',
                        'specs.md chapter 6 does not fix the order in which random bytes are consumed; the TLA+ generator fixes it as the reference implementation does']
     if not res['rejected']:
